@@ -1,8 +1,152 @@
 import Driver.Proto
-/-! driver handlers for property C01 (ops `model.*`, `spec.*`, `trig.*`) -/
-namespace Verif.Driver.C01
-open Verif Verif.Driver
+import Verif.Model.JsStmt
+/-! driver handlers for property C01 (ops `model.c01.*`, `spec.c01.*`, `trig.c01.*`)
 
-def handlers : List (String × Handler) := []
+Programs arrive in a prefix encoding (tokens separated by one space):
+`V name | N n | S str | T | F | Z | U op e | B op e e | C e e e | M k e… | L k f a… | D name e | I e e | G e`;
+statements `E e | IF e s s | R0 | R e | TH e | BL k s… | FN name k p… m s… | EM | AB`; a program is `k s…`. -/
+namespace Verif.Driver.C01
+open Verif Verif.Driver Verif.Spec.JsSyntax Verif.Model.JsAst Verif.Model.JsOpt Verif.Model.JsPrint Verif.Model.JsStmt
+
+def uopOf (s : String) : Option UOp :=
+  match s with
+  | "!" => some .not | "~" => some .bitnot | "typeof" => some .typeof | "void" => some .void
+  | "delete" => some .delete | "u+" => some .pos | "u-" => some .neg | "++x" => some .preinc
+  | "--x" => some .predec | "x++" => some .postinc | "x--" => some .postdec
+  | _ => none
+
+def bopOf (s : String) : Option BOp := BOp.all.find? (fun o => o.text == s)
+
+def decStr (s : String) : String :=
+  if s == "~" then "" else String.ofList (s.toList.map (fun c => if c == '_' then ' ' else c))
+
+mutual
+partial def parseE : List String → Option (E × List String)
+  | "V" :: n :: r => some (.var n, r)
+  | "N" :: n :: r => n.toNat?.map (fun k => (.lit (.num k), r))
+  | "S" :: s :: r => some (.lit (.str (decStr s)), r)
+  | "T" :: r => some (.lit .true, r)
+  | "F" :: r => some (.lit .false, r)
+  | "Z" :: r => some (.lit .null, r)
+  | "U" :: op :: r => do
+    let o ← uopOf op
+    let (x, r) ← parseE r
+    pure (.unary o x, r)
+  | "B" :: op :: r => do
+    let o ← bopOf op
+    let (x, r) ← parseE r
+    let (y, r) ← parseE r
+    pure (.bin o x y, r)
+  | "C" :: r => do
+    let (c, r) ← parseE r
+    let (x, r) ← parseE r
+    let (y, r) ← parseE r
+    pure (.cond c x y, r)
+  | "M" :: k :: r => do
+    let n ← k.toNat?
+    let (l, r) ← parseEs n r
+    pure (.comma l, r)
+  | "L" :: k :: r => do
+    let n ← k.toNat?
+    let (f, r) ← parseE r
+    let (l, r) ← parseEs n r
+    pure (.call f l, r)
+  | "D" :: name :: r => do
+    let (x, r) ← parseE r
+    pure (.dot x name, r)
+  | "I" :: r => do
+    let (x, r) ← parseE r
+    let (y, r) ← parseE r
+    pure (.index x y, r)
+  | "G" :: r => do
+    let (x, r) ← parseE r
+    pure (.group x, r)
+  | _ => none
+partial def parseEs : Nat → List String → Option (List E × List String)
+  | 0, r => some ([], r)
+  | n + 1, r => do
+    let (x, r) ← parseE r
+    let (l, r) ← parseEs n r
+    pure (x :: l, r)
+end
+
+def takeN : Nat → List String → Option (List String × List String)
+  | 0, r => some ([], r)
+  | n + 1, a :: r => (takeN n r).map (fun (l, r) => (a :: l, r))
+  | _ + 1, [] => none
+
+mutual
+partial def parseS : List String → Option (S × List String)
+  | "E" :: r => do
+    let (e, r) ← parseE r
+    pure (.expr e, r)
+  | "IF" :: r => do
+    let (c, r) ← parseE r
+    let (t, r) ← parseS r
+    let (e, r) ← parseS r
+    pure (.ifS c t e, r)
+  | "R0" :: r => some (.ret none, r)
+  | "R" :: r => do
+    let (e, r) ← parseE r
+    pure (.ret (some e), r)
+  | "TH" :: r => do
+    let (e, r) ← parseE r
+    pure (.throw e, r)
+  | "BL" :: k :: r => do
+    let n ← k.toNat?
+    let (l, r) ← parseSs n r
+    pure (.block l, r)
+  | "FN" :: name :: k :: r => do
+    let n ← k.toNat?
+    let (ps, r) ← takeN n r
+    match r with
+    | m :: r => do
+      let n2 ← m.toNat?
+      let (l, r) ← parseSs n2 r
+      pure (.fn name ps l, r)
+    | [] => none
+  | "EM" :: r => some (.empty, r)
+  | "AB" :: r => some (.absent, r)
+  | _ => none
+partial def parseSs : Nat → List String → Option (List S × List String)
+  | 0, r => some ([], r)
+  | n + 1, r => do
+    let (x, r) ← parseS r
+    let (l, r) ← parseSs n r
+    pure (x :: l, r)
+end
+
+def parseProg (b : Bytes) : Except String (List S) :=
+  let toks := ((String.ofList (bytesToChars b)).splitOn " ").filter (· ≠ "")
+  match toks with
+  | k :: r =>
+    match k.toNat? with
+    | some n =>
+      match parseSs n r with
+      | some (l, []) => .ok l
+      | _ => .error "bad program encoding"
+    | none => .error "bad program encoding"
+  | [] => .error "empty program"
+
+/-- `model.c01.min <ver2020:0|1> <prog>` → output bytes, `!unmodelled` when outside the fragment -/
+def minH : Handler := fun args => do
+  let v ← argBool args 0
+  let b ← argBytes args 1
+  let prog ← parseProg b
+  match jsMinify { ver2020 := v } prog with
+  | some cs => .ok (charsToBytes cs)
+  | none => .error "unmodelled"
+
+/-- `trig.c01.known <ver2020> <prog>` → `1` iff the program is in the modelled fragment and falls under an open known
+    finding of the model (K-C01-1 `return a,b,undefined`, K-C01-2 call merging below an effectful condition) -/
+def knownH : Handler := fun args => do
+  let v ← argBool args 0
+  let b ← argBytes args 1
+  let prog ← parseProg b
+  let plain := jsMinify { ver2020 := v } prog
+  let guarded := jsMinify { ver2020 := v, guarded := true } prog
+  .ok (boolBytes (plain.isSome && guarded.isNone))
+
+def handlers : List (String × Handler) := [("model.c01.min", minH), ("trig.c01.known", knownH)]
 
 end Verif.Driver.C01
